@@ -85,6 +85,7 @@ def run(chk, st, tier):
                             "Per history: sink writes model vs implementation byte for byte; validator on the real bytes (one row group per non-empty batch, rows, records); real reader vs records of the non-empty written batches; "
                             "histories that differ only by empty Writes / records pending at Close must give identical files. distinct = distinct histories with values." % (7 if tier == "quick" else 9))
     chk.coverage["explanation"] = "see coq/props/C06.v: file_bytes_batches, empty_write_inert, pending_at_close_dropped, footer row counts."
+    chk.assumptions += ['writer model tied to the code by byte-exact sink-write comparison on every history of the run']
 
 
 def replay(chk, st, data):
